@@ -662,6 +662,5 @@ Proof.
               | Some l => bool_decide (l ∉ u_full0 s) | None => false end)
     EValue vrs s) as E2.
   unfold bind at 1. rewrite E2; cycle 1.
-  { intros a. unfold level_of_var. cbn [bind get].
-  { intros a. unfold level_of_var. cbn [bind get].
-    destruct (vars s !! a) as [l|]; cbn [of_opt bind ret raise]. Show.
+  { intros x. unfold level_of_var. cbn [bind get].
+    destruct (vars s !! x) as [l|]; cbn [of_opt bind ret raise]. Show.
